@@ -152,8 +152,9 @@ def native_test(test_src, logdir, tag, env=None, unit_in_crate=None):
         scratch, 900, env=common.offline_env(env), log=os.path.join(logdir, "e2replay_%s.log" % tag))
     common.drop_scratch(scratch)
     m = re.search(r"test result: \w+\. (\d+) passed; (\d+) failed", out)
-    return dict(ran=bool(m), failed=int(m.group(2)) if m else 0, passed=int(m.group(1)) if m else 0,
-                out="\n".join(out.splitlines()[-25:]))
+    compiled = "could not compile" not in out and "error[E" not in out
+    return dict(ran=bool(m), compiled=compiled, failed=int(m.group(2)) if m else 0, passed=int(m.group(1)) if m else 0,
+                out=("REPLAY HARNESS DID NOT COMPILE\n" if not compiled else "") + "\n".join(out.splitlines()[-25:]))
 
 
 def save_replay(prop, unit, test_src, desc, outcome):
